@@ -21,6 +21,7 @@ import (
 	"encoding/base64"
 	"encoding/json"
 	"fmt"
+	"io"
 	"net"
 	"net/http"
 	"net/url"
@@ -36,6 +37,7 @@ import (
 	"github.com/bluenviron/gortsplib/v5"
 	"github.com/bluenviron/gortsplib/v5/pkg/base"
 	"github.com/bluenviron/gortsplib/v5/pkg/description"
+	"github.com/bluenviron/gortsplib/v5/pkg/format"
 	"github.com/bluenviron/mediacommon/v2/pkg/formats/mpegts"
 	tscodecs "github.com/bluenviron/mediacommon/v2/pkg/formats/mpegts/codecs"
 	srt "github.com/datarhei/gosrt"
@@ -207,7 +209,7 @@ func vf03StartCore(t testing.TB, users []vf03User, trusted bool) *vf03Env {
 		fmt.Fprintf(&b, "api: yes\napiAddress: 127.0.0.1:%d\n", ports[0])
 		fmt.Fprintf(&b, "rtsp: yes\nrtspTransports: [tcp]\nrtspEncryption: \"no\"\nrtspAddress: 127.0.0.1:%d\n", ports[1])
 		fmt.Fprintf(&b, "rtmp: yes\nrtmpEncryption: \"no\"\nrtmpAddress: 127.0.0.1:%d\n", ports[2])
-		fmt.Fprintf(&b, "hls: yes\nhlsAddress: 127.0.0.1:%d\nhlsTrustedProxies: %s\nhlsVariant: mpegts\n", ports[3], proxies)
+		fmt.Fprintf(&b, "hls: yes\nhlsAddress: 127.0.0.1:%d\nhlsTrustedProxies: %s\nhlsVariant: mpegts\nhlsCDNSecret: %s\n", ports[3], proxies, vf03CDNSecret)
 		fmt.Fprintf(&b, "srt: yes\nsrtAddress: 127.0.0.1:%d\n", ports[6])
 		fmt.Fprintf(&b, "webrtc: yes\nwebrtcAddress: 127.0.0.1:%d\nwebrtcTrustedProxies: %s\n", ports[4], proxies)
 		fmt.Fprintf(&b, "webrtcLocalUDPAddress: :%d\nwebrtcLocalTCPAddress: ''\nwebrtcICEServers2: []\n", ports[7])
@@ -255,6 +257,7 @@ func vf03StartCore(t testing.TB, users []vf03User, trusted bool) *vf03Env {
 }
 
 const (
+	vf03CDNSecret  = "vfcdn03secret"
 	vf03ProbeQuery = "vfprobe=1"
 	vf03FeedQuery  = "vffeed=1"
 )
@@ -572,6 +575,9 @@ func (e *vf03Env) play(s *vf03Scen) (note string) {
 		return e.playMoQ(s)
 
 	case "hls/read":
+		if s.Mode == "cdn" {
+			return e.playHLSBehindCDN(s)
+		}
 		stop := e.feed(s)
 		defer stop()
 		tr := &http.Transport{}
@@ -817,6 +823,92 @@ func (e *vf03Env) playMoQ(s *vf03Scen) (note string) {
 	}
 	_, refused := reply.(*controlmessage.RequestError)
 	return fmt.Sprintf("reply %T attached=%v", reply, e.attachedNow(s, !refused))
+}
+
+// playHLSBehindCDN: a publisher sends real H.264 (so that the muxer has segments), a CDN pulls the
+// multivariant and the media playlist with the configured CDN secret (its session exists from then
+// on), then the scenario's client asks for the media playlist and a segment directly: no index.m3u8,
+// no session secret, no CDN secret, its own credentials at most. Being served media is what makes
+// an HLS client a reader.
+func (e *vf03Env) playHLSBehindCDN(s *vf03Scen) string {
+	medi := test.UniqueMediaH264()
+	src := e.rtspClient()
+	err := src.StartRecording("rtsp://alice:pw@"+e.rtsp+"/"+s.Name+"?"+vf03FeedQuery,
+		&description.Session{Medias: []*description.Media{medi}})
+	if err != nil {
+		e.t.Fatalf("vf03: scenario %d: cannot publish: %v", s.ID, err)
+	}
+	defer src.Close()
+	enc, err := medi.Formats[0].(*format.H264).CreateEncoder()
+	if err != nil {
+		e.t.Fatal(err)
+	}
+	stop := make(chan struct{})
+	defer close(stop)
+	go func() {
+		for i := 0; ; i++ {
+			pkts, err2 := enc.Encode([][]byte{{5, 1, 2, 3, 4}})
+			if err2 == nil {
+				for _, pkt := range pkts {
+					pkt.Timestamp = uint32(i) * 90000
+					src.WritePacketRTP(medi, pkt) //nolint:errcheck
+				}
+			}
+			select {
+			case <-stop:
+				return
+			case <-time.After(60 * time.Millisecond):
+			}
+		}
+	}()
+
+	tr := &http.Transport{}
+	defer tr.CloseIdleConnections()
+	hc := &http.Client{Transport: tr, Timeout: 20 * time.Second}
+	get := func(name string, cdn bool) (int, string) {
+		req, err2 := http.NewRequest(http.MethodGet, "http://"+e.hls+"/"+s.Name+"/"+name, nil)
+		if err2 != nil {
+			e.t.Fatal(err2)
+		}
+		req.Header.Set("X-Forwarded-For", s.forwarded())
+		if cdn {
+			req.Header.Set("Authorization", "Bearer "+vf03CDNSecret)
+		} else if s.User != "" || s.Pass != "" {
+			req.SetBasicAuth(s.User, s.Pass)
+		}
+		res, err2 := hc.Do(req)
+		if err2 != nil {
+			return 0, err2.Error()
+		}
+		defer res.Body.Close()
+		b, _ := io.ReadAll(io.LimitReader(res.Body, 1<<20))
+		return res.StatusCode, string(b)
+	}
+	firstURI := func(body string) string {
+		for _, line := range strings.Split(body, "\n") {
+			line = strings.TrimSpace(line)
+			if line != "" && line[0] != '#' {
+				return strings.SplitN(line, "?", 2)[0]
+			}
+		}
+		return ""
+	}
+	status, body := get("index.m3u8", true)
+	playlist := firstURI(body)
+	if status != http.StatusOK || playlist == "" {
+		e.t.Fatalf("vf03: scenario %d: the CDN cannot pull index.m3u8: %d %q", s.ID, status, body)
+	}
+	status, body = get(playlist, true)
+	segment := firstURI(body)
+	if status != http.StatusOK || segment == "" {
+		e.t.Fatalf("vf03: scenario %d: the CDN cannot pull %s: %d %q", s.ID, playlist, status, body)
+	}
+	// the client
+	st1, b1 := get(playlist, false)
+	st2, b2 := get(segment, false)
+	served := (st1 == http.StatusOK && b1 != "") || (st2 == http.StatusOK && b2 != "")
+	s.attachedSeen = &served
+	return fmt.Sprintf("media playlist %d, segment %d", st1, st2)
 }
 
 // attachedNow looks the client up in the path manager; after a success it allows the server a
